@@ -210,11 +210,145 @@ def _r2_cigar_structural(ctx):
     ctx.emit('C15-R2', okn, MOLECULE, l, f'get_CIGAR: N length `{src(apps.get("N")) if "N" in apps else None}` with {pv} = previous block end ' + ('== start - prev_end - 1' if okn else 'is not the gap between inclusive blocks'), key='cigar:N-length')
 
 
+def _find_ranges_by_interpretation(ctx, g):
+    import itertools
+    from ..consteval import run_function, Raised, Unfoldable, module_scope
+    try:
+        env = module_scope(ctx.ix, ITERATION)
+        n = 0
+        for k in range(0, 8):
+            for combo in itertools.combinations(range(0, 8), k):
+                n += 1
+                got = [tuple(x) for x in run_function(g, [list(combo)], env=env, budget=20000)]
+                want = []
+                for v in combo:
+                    if want and v == want[-1][1] + 1:
+                        want[-1] = (want[-1][0], v)
+                    else:
+                        want.append((v, v))
+                if got != want:
+                    return (False, n, {'sorted positions': list(combo), 'yielded': got, 'maximal runs (first, last)': want})
+    except (Unfoldable, Raised):
+        return None
+    except Exception:
+        return None
+    return (True, n, None)
+
+
+def partial_reads_model(ctx):
+    """Molecule.generate_partial_reads run by the abstract interpreter on model molecules: up to three inclusive aligned blocks at coordinates 0..7 (get_CIGAR is taken
+    from the code as it is), max_N_span None / 0 / 1 / 2; fetching a stretch is a token that records its half-open interval.  Required: one partial read per run of
+    blocks whose gaps do not exceed the span, starting at its first block, ending behind its last, with one stretch [start, end+1) and one `<len>M` per block and one
+    `<gap>N` per gap inside it, sequence and quality stretches pairwise.  (ok, cases, witness) / None.  Cached per run."""
+    if hasattr(ctx, '_partial_reads_model'):
+        return ctx._partial_reads_model
+    import itertools
+    from ..consteval import run_function, Raised, Unfoldable, module_scope, Instance
+    ctx._partial_reads_model = None
+    try:
+        env = module_scope(ctx.ix, MOLECULE)
+        cls = env.get('Molecule')
+        f = cls.method('generate_partial_reads')[0]
+        gc = cls.method('get_CIGAR')[0]
+    except Exception:
+        return None
+    coords = range(0, 8)
+    blocks = [(a, b) for a in coords for b in coords if a <= b and b - a <= 2]
+    n = 0
+    sc = dict(cls.scope)
+    sc['__class__'] = cls
+    try:
+        for k in (1, 2, 3):
+            for combo in itertools.combinations(blocks, k):
+                if any(x[1] + 1 >= y[0] for x, y in zip(combo, combo[1:])):
+                    continue
+                for span in (None, 0, 1, 2):
+                    n += 1
+
+                    def hook(ev, call, env_, combo=combo):
+                        if isinstance(call.func, ast.Attribute):
+                            at = call.func.attr
+                            if at == 'get_aligned_blocks':
+                                return [tuple(x) for x in combo]
+                            if at == 'extract_stretch_from_dict':
+                                a = [ev.ev(x, env_) for x in call.args]
+                                return (f'S[{a[1]},{a[2]})', f'Q[{a[1]},{a[2]})')
+                        return NotImplemented
+                    me = Instance(cls, {'chromosome': 'c', 'spanStart': -5, 'spanEnd': 99})
+                    got = run_function(f, [me, {}], {'max_N_span': span}, env=sc, call_hook=hook, budget=60000)
+                    got = [(g_[0], g_[1], list(g_[2]), list(g_[3]), list(g_[4])) for g_ in got]
+                    want, cur = [], None
+                    for i, (a, b) in enumerate(combo):
+                        if i:
+                            gap = a - combo[i - 1][1] - 1
+                            if span is not None and gap > span:
+                                want.append(cur)
+                                cur = None
+                            else:
+                                cur[4].append(f'{gap}N')
+                        if cur is None:
+                            cur = [a, None, [], [], []]
+                        cur[1] = b + 1
+                        cur[2].append(f'S[{a},{b + 1})')
+                        cur[3].append(f'Q[{a},{b + 1})')
+                        cur[4].append(f'{b - a + 1}M')
+                    want.append(cur)
+                    want = [tuple(w_) for w_ in want]
+                    if got != want:
+                        ctx._partial_reads_model = (False, n, {'aligned blocks (inclusive)': list(combo), 'max_N_span': span, 'partial reads (start, end, stretches, qualities, cigar)': got, 'expected': want})
+                        return ctx._partial_reads_model
+    except (Unfoldable, Raised):
+        return None
+    except Exception:
+        return None
+    ctx._partial_reads_model = (True, n, None)
+    return ctx._partial_reads_model
+
+
 def _r2_rest(ctx):
+    from ..core import Ctx, VIOLATED, UNDECIDED
+    sub = Ctx(ctx.ix, 'C15', ctx.tier)
+    err = None
+    try:
+        _r2_rest_structural(sub)
+    except AnalysisError as e_:
+        err = e_
+    except Exception as e_:
+        err = AnalysisError(f'structural reading failed ({type(e_).__name__}: {e_})')
+    for k_, v_ in sub.counters.items():
+        ctx.counters[k_] = (ctx.counters.get(k_, set()) | v_) if isinstance(v_, set) else ctx.counters.get(k_, 0) + v_
+    open_ = [o for o in sub.obligations if o.status in (VIOLATED, UNDECIDED) and 'generate_partial_reads' in o.construct]
+    if err is None and not open_:
+        ctx.obligations.extend(sub.obligations)
+        return
+    m = partial_reads_model(ctx)
+    if m is None:
+        ctx.obligations.extend(sub.obligations)
+        if err is not None:
+            raise err
+        return
+    ok, n, wit = m
+    f = ctx.fn(MOLECULE, 'Molecule.generate_partial_reads')
+    ctx.counters['interpreted_cases'] += n
+    if ok:
+        ctx.obligations.extend([o for o in sub.obligations if o not in open_])
+        ctx.emit('C15-R2', True, MOLECULE, f, f'generate_partial_reads interpreted on {n} (aligned blocks, max_N_span) cases: one partial read per run of blocks, one stretch [start, end+1) and one M per block, '
+                 f'one N per inner gap, stretches and qualities pairwise (the structural reading did not follow the restructured method)', key='partial-reads:model')
+    else:
+        ctx.obligations.extend(sub.obligations)
+        ctx.emit('C15-R2', False, MOLECULE, f, f'generate_partial_reads on a model molecule: {wit}', key='partial-reads:model', witness=wit, what='generate_partial_reads: partial reads do not cover the aligned blocks')
+
+
+def _r2_rest_structural(ctx):
     ix = ctx.ix
     # the N is only emitted between blocks and the M for every block
     g = ctx.fn(ITERATION, 'find_ranges') if ix.exists(ITERATION) and ix.has_func(ITERATION, 'find_ranges') else None
-    if g is not None:
+    sem = _find_ranges_by_interpretation(ctx, g) if g is not None else None
+    if sem is not None:
+        ctx.counters['abstract_cases'] += sem[1]
+        ctx.emit('C15-R2', sem[0], ITERATION, g, f'find_ranges interpreted on {sem[1]} sorted position lists: yields the inclusive (first, last) of every maximal run' if sem[0] else f'find_ranges differs: {sem[2]}',
+                 key='find_ranges:inclusive', witness=sem[2], what='find_ranges: the aligned blocks are not the maximal runs of covered positions')
+    elif g is not None:
         ys = [y for y in walk_no_nested(g) if isinstance(y, ast.Yield)]
         ok = bool(ys) and all(isinstance(y.value, ast.Tuple) and len(y.value.elts) == 2 and src(y.value.elts[0]).endswith('[0]') and
                               src(y.value.elts[1]).endswith(('[-1]', '[0]')) for y in ys)
